@@ -64,6 +64,25 @@ class Frame:
         return 'f%d._%d' % (self.id, n)
 
 
+def capture_types(f):
+    """{capture index: type} read off the `_1.K: T` projections in a closure body"""
+    out = {}
+
+    def walk(x):
+        if isinstance(x, tuple):
+            if len(x) == 4 and x[0] == 'field' and x[1] in (('local', 1), ('deref', ('local', 1))) and isinstance(x[2], int):
+                out.setdefault(x[2], x[3])
+            for y in x:
+                walk(y)
+        elif isinstance(x, list):
+            for y in x:
+                walk(y)
+    for b in f.blocks.values():
+        walk(b.stmts)
+        walk(b.term)
+    return out
+
+
 class Outcome:
     def __init__(self, st, kind, val=None, msg=''):
         self.st, self.kind, self.val, self.msg = st, kind, val, msg
@@ -567,6 +586,31 @@ class Exec:
         return ''
 
     # -- operands -------------------------------------------------------------
+    def recover_captures(self, fr, cname, ops):
+        """rustc's MIR printer names closure captures after the captured *variable*, so several disjoint captures of
+        one variable (`self.decoder`, `self.payload`) print as a single operand.  The hidden operands are the temporaries
+        assigned immediately before the aggregate, in capture order; they are recovered only if count, position and
+        types agree with the closure body's `_1.K: T` projections - otherwise the printed list is kept (and a later
+        out-of-range projection refuses)."""
+        cands = self.prog.closures.get(cname) or []
+        if len(cands) != 1:
+            return ops
+        want = capture_types(cands[0])
+        n = (max(want) + 1) if want else 0
+        if n <= len(ops):
+            return ops
+        recent = getattr(fr, 'recent', [])
+        if len(recent) < n:
+            return ops
+        tail = recent[-n:]
+        norm = lambda t: re.sub(r'\b(?:\w+::)+', '', t or '').replace(' ', '')   # noqa
+        for k, (loc, ty) in enumerate(tail):
+            if k in want and norm(want[k]) != norm(ty):
+                return ops
+        if ops and not (ops[0][0] in ('copy', 'move') and ops[0][1] == ('local', tail[0][0])):
+            return ops
+        return [('copy', ('local', loc)) for loc, _ in tail]
+
     def operand(self, st, fr, op, ty_hint=''):
         k = op[0]
         if k in ('copy', 'move'):
@@ -699,9 +743,12 @@ class Exec:
             # enum variant referenced by bare name (`InvalidDocument(..)`) or via alias
             return VAgg(dty, segs[-1], fields)
         if k == 'closure':
-            caps = VAgg('closure', None, [self.operand(st, fr, o) for (_, o) in rv[2]])
+            ops = [o for (_, o) in rv[2]]
             m = re.search(r'\{closure@[^}]*\}', rv[1])
-            return VFn(m.group(0) if m else rv[1], caps)
+            cname = m.group(0) if m else rv[1]
+            ops = self.recover_captures(fr, cname, ops)
+            caps = VAgg('closure', None, [self.operand(st, fr, o) for o in ops])
+            return VFn(cname, caps)
         if k == 'repeat':
             v = self.operand(st, fr, rv[1])
             n = re.match(r'(?:const )?(\d+)', rv[2])
@@ -917,8 +964,11 @@ class Exec:
                 blk = fr.func.blocks.get(bb)
                 if blk is None or blk.term is None:
                     raise Refuse('missing block bb%s in %s' % (bb, fr.func.name))
+                fr.recent = []
                 for s in blk.stmts:
                     self.stmt(st, fr, s)
+                    if s[0] == 'assign' and s[1][0] == 'local':
+                        fr.recent.append((s[1][1], fr.func.locals.get(s[1][1])))
                 t = blk.term
                 k = t[0]
                 if k == 'goto':
